@@ -419,7 +419,12 @@ func ruleFill(c *Ctx) {
 			if e.Kind == "call" && e.Callee != nil && e.Callee.Name() == "SetHeader" && len(e.Args) == 3 {
 				if s, _ := e.Args[1].StrVal(); strings.EqualFold(s, "Content-Encoding") {
 					enc = e.Args[2]
+				} else {
+					bad = append(bad, "Fill sets header "+prettyTerm(e.Args[1])+" over what the upstream sent (SetHeader replaces every value of that field) on "+where)
 				}
+			}
+			if e.Kind == "call" && e.Callee != nil && isPikeOrEltonHeaderDel(e.Callee) {
+				bad = append(bad, "Fill removes a response header ("+e.Callee.Name()+") on "+where)
 			}
 			if e.Kind == "call" && e.Callee != nil && e.Callee.Name() == "MergeHeader" {
 				merged = e.Args[1]
@@ -948,4 +953,10 @@ func ruleDecoderDispatch(c *Ctx) {
 		}
 	}
 	c.check(len(bad) == 0, "decoder-dispatch", name, pos, fmt.Sprintf("%d paths: every Encoding* constant and identity has its own case; each codec method reaches its own library entry point and no other", n), strings.Join(uniq(bad), " || "), n+len(entry))
+}
+
+// isPikeOrEltonHeaderDel: a call that deletes response headers on the context.
+func isPikeOrEltonHeaderDel(f *ssa.Function) bool {
+	nm := f.Name()
+	return (nm == "ResetHeader" || nm == "DelHeader") && strings.Contains(f.String(), "elton.Context")
 }
